@@ -587,15 +587,27 @@ def _chunk_ctor_hook(eng, args, kw, st, fr, k, node):
     fr.on_raise(Exc("ValueError"), st)
     g = dict(st.ghost)
     g["built"] = z3.BoolVal(True)
-    return k(Opq(eng.fresh("loaded_chunk", "V")), St(st.env, st.heap, st.pc, g))
+    c = eng.fresh("loaded_chunk", "V")
+    g["built_chunk"] = c
+    return k(Opq(c), St(st.env, st.heap, st.pc, g))
+
+
+ATR = z3.Function("fn:self.apply_time_range", V, V, V)
+
+
+def _raf_ens(S, a, r):
+    return [("a chunk was built", a.ghost.built),
+            ("whenever a time range is given the chunk handed out is the built chunk cut to that range (apply_time_range) - also when "
+             "it has no rows, since its start and end still have to be trimmed; without a range it is the built chunk itself",
+             S.If(S.truthy(a.time_range), S.eq(r, ATR(a.ghost.built_chunk, S.v(a.time_range))), S.eq(r, a.ghost.built_chunk)))]
 
 
 read_and_format = REG.add(Contract(
     FC, "StorageBackend._read_and_format_chunk",
     params=dict(self="V", backend_key="V", dtype="V", metadata="V", chunk_info="V", time_range="V", chunk_construction_kwargs="V"),
-    ensures=lambda S, a, r: [("a chunk was built", a.ghost.built)],
+    ensures=_raf_ens,
     raises={"DataCorrupted": lambda S, a: S.true, "ValueError": lambda S, a: S.true, "Any": lambda S, a: S.true},
-    ghost={"built": z3.BoolVal(False), "read_with_info": z3.Const("nothing_read", V)},
+    ghost={"built": z3.BoolVal(False), "read_with_info": z3.Const("nothing_read", V), "built_chunk": z3.Const("no_chunk_built", V)},
     calls={"self._read_chunk": _read_chunk_hook, "strax.Chunk": _chunk_ctor_hook, "self.apply_time_range": Abstract(pure=True)},
 ))
 
